@@ -3,6 +3,7 @@ package sim
 import (
 	"context"
 	"fmt"
+	"strings"
 	"time"
 
 	"berty.tech/go-orbit-db/iface"
@@ -11,7 +12,7 @@ import (
 
 func init() {
 	Register(&Scenario{Prop: "C06", Name: "kv-lww", Run: scenC06, SoftParks: true, Weight: 1,
-		Rule: "1-3 replicas of a key-value store; 3-14 (thorough 3-40) Put/Delete on 1-5 keys (repeated keys, deletes of absent keys, re-puts, empty and binary values), one operation in five a burst of 2-3 concurrent local writers stepped through the write path or free-running (the client of one of them may give up mid-write: its context is cancelled while it sits between two steps), with replication under the swarm faults, failing fetches / gap-fill and kernel stalls; at every quiescent step each replica's Get/All must equal the last-writer-wins replay of its own log by the independent model, and the log order must respect the causal past recorded by the kernel; non-trivial = >=3 writes and (with several replicas) >=1 replicated entry"})
+		Rule: "1-3 replicas of a key-value store (one operation in ten arms a disk error for the next write of the merged heads on one replica: the merge itself stands, view and log must still agree); 3-14 (thorough 3-40) Put/Delete on 1-5 keys (repeated keys, deletes of absent keys, re-puts, empty and binary values), one operation in five a burst of 2-3 concurrent local writers stepped through the write path or free-running (the client of one of them may give up mid-write: its context is cancelled while it sits between two steps), with replication under the swarm faults, failing fetches / gap-fill and kernel stalls; at every quiescent step each replica's Get/All must equal the last-writer-wins replay of its own log by the independent model, and the log order must respect the causal past recorded by the kernel; non-trivial = >=3 writes and (with several replicas) >=1 replicated entry"})
 }
 
 var c06Keys = []string{"a", "b", "ключ", "k k", "z/1"}
@@ -81,6 +82,22 @@ func scenC06(k *K) {
 	c.BurstCancel = k.C.Chance(1, 2)
 	for i := 0; i < nops; i++ {
 		node := k.C.Intn(n)
+		if n > 1 && k.C.Chance(1, 10) {
+			// the next write of the merged heads to the cache fails on one replica (disk error
+			// at the end of a merge): what was merged is in its log, and in its view
+			nd := c.Peers[k.C.Intn(n)].Node
+			k.W.mu.Lock()
+			k.W.DiskFault = func(on *Node, kind, space, key string) error {
+				if on == nd && kind == "cache-put" && strings.HasSuffix(key, "_remoteHeads") {
+					k.W.DiskFault = nil
+					k.W.stat("merge-heads-write-failed")
+					return fmt.Errorf("sim: disk error on %s", key)
+				}
+				return nil
+			}
+			k.W.mu.Unlock()
+			k.cleanups = append(k.cleanups, func() { k.W.mu.Lock(); k.W.DiskFault = nil; k.W.mu.Unlock() })
+		}
 		if k.C.Chance(1, 5) {
 			// concurrent local writers; the client of one of them may give up mid-write
 			c.WriteBurst(node, k.C.Range(2, 3), k.C.Chance(1, 2))
